@@ -646,6 +646,9 @@ func GenSchedPlan(seed uint64, idx int, prop string) *plan.SchedPlan {
 	if prop == "C13" {
 		salt = 0x5c13
 	}
+	if prop == "C11" {
+		salt = 0x5c11
+	}
 	r := plan.New(plan.Mix(seed, uint64(idx)+salt<<20))
 	p := &plan.SchedPlan{Engine: "simsched", Property: prop, Build: "plain", Seed: seed, Index: idx, Policy: "sequential"}
 	panicky = prop == "C12"
@@ -656,6 +659,9 @@ func GenSchedPlan(seed uint64, idx int, prop string) *plan.SchedPlan {
 		if r.Chance(0.05) {
 			k = r.Range(5, 8)
 		}
+	}
+	if prop == "C11" {
+		return genBudgetPlan(p, r, uniq)
 	}
 	if prop == "C12" && r.Chance(0.3) {
 		return genHammer(p, r, uniq, k)
@@ -838,6 +844,72 @@ func genHammer(p *plan.SchedPlan, r *plan.Rand, uniq string, k int) *plan.SchedP
 		p.Tasks = append(p.Tasks, ops)
 	}
 	return p
+}
+
+// genBudgetPlan (C11 under concurrency): 2-4 callers that only create
+// evaluators with parse budgets placed around the measured step count of each
+// expression. A budget is a property of one parse: what other callers parse at
+// the same time, and with which budgets, must not matter.
+func genBudgetPlan(p *plan.SchedPlan, r *plan.Rand, uniq string) *plan.SchedPlan {
+	env := budgetEnv()
+	p.Data = []DatumSpec{{Gen: []string{"doc", "json", "tmap:any"}[r.Intn(3)], Seed: r.Uint64() % 1000000}}
+	root := Build(p.Data[0])
+	k := r.Range(2, 4)
+	nExpr := r.Range(1, 3)
+	type ex struct {
+		text string
+		s    uint64
+	}
+	var exprs []ex
+	for i := 0; i < nExpr; i++ {
+		g := &ExprGen{R: r.Fork(), Uniq: uniq}
+		e := g.Gen(root, r.Intn(2), r.Intn(3))
+		if r.Chance(0.2) {
+			e = strings.Repeat("(", 4) + "a == 1" + strings.Repeat(")", 4) // a few ten thousand steps
+		}
+		verifsim.Reset()
+		verifsim.BeginMain()
+		_, entries, _ := limitedParse(apiEval, []byte(e), 0, false, 0, env.EntrySites)
+		verifsim.SetMode(verifsim.ModeOff)
+		exprs = append(exprs, ex{e, entries})
+	}
+	for t := 0; t < k; t++ {
+		var ops []plan.SOp
+		for j, n := 0, r.Range(1, 4); j < n; j++ {
+			x := exprs[r.Intn(len(exprs))]
+			s := x.s
+			if s == 0 {
+				s = 500
+			}
+			budgets := []uint64{s, s + 1, s - 1, s / 2, 2 * s, 1, 50, 1 << 40, 0}
+			o := ObjSpec{Kind: "evaluator", Expr: x.text, Opts: OptSpec{Max: budgets[r.Intn(len(budgets))]}}
+			ops = append(ops, plan.SOp{Kind: "create", Obj: -1, Datum: -1, New: &o})
+			if r.Chance(0.4) {
+				ops = append(ops, plan.SOp{Kind: "eval", Local: true, Obj: len(opsCreates(ops)) - 1, Datum: 0})
+			}
+		}
+		p.Tasks = append(p.Tasks, ops)
+	}
+	return p
+}
+
+func opsCreates(ops []plan.SOp) []int {
+	var out []int
+	for i, o := range ops {
+		if o.Kind == "create" {
+			out = append(out, i)
+		}
+	}
+	return out
+}
+
+var budgetEnvCache *C11Env
+
+func budgetEnv() *C11Env {
+	if budgetEnvCache == nil {
+		budgetEnvCache = NewC11Env()
+	}
+	return budgetEnvCache
 }
 
 // deepChain builds `t1 and t2 and ... and tn` from terms that are true on the
@@ -1151,6 +1223,20 @@ func summarise(p *plan.SchedPlan, run *passResult, conc bool, findings []Finding
 	return sr
 }
 
+// relabel: a budget plan's findings belong to C11 (a parse budget that depends
+// on what other callers are doing is not a budget on that parse's work).
+func relabel(p *plan.SchedPlan, fs []Finding) []Finding {
+	if p.Property != "C11" {
+		return fs
+	}
+	for i := range fs {
+		fs[i].Property = "C11"
+		fs[i].Key = "C11/concurrent-" + strings.TrimPrefix(fs[i].Key, "C12/")
+		fs[i].Detail = "parse budgets under concurrent creation: " + fs[i].Detail
+	}
+	return fs
+}
+
 func toViolation(p *plan.SchedPlan, f Finding, seed uint64) Violation {
 	q := p.Clone()
 	q.Expect = f.Key
@@ -1178,6 +1264,7 @@ func execSched(p *plan.SchedPlan) (schedResult, []Finding) {
 		// purely sequential process that generated the plan
 		f = judgeRef(p, conc, hist)
 	}
+	f = relabel(p, f)
 	return summarise(p, conc, true, f), f
 }
 
@@ -1187,12 +1274,15 @@ func workerSchedGen(cfg WorkerCfg) int {
 	if cfg.K == 13 {
 		prop = "C13"
 	}
+	if cfg.K == 11 {
+		prop = "C11"
+	}
 	for idx := cfg.From; idx < cfg.To; idx += cfg.Stride {
 		if cfg.expired() {
 			break
 		}
 		p := GenSchedPlan(cfg.Seed, idx, prop)
-		if prop == "C12" {
+		if prop != "C13" {
 			hist := runHistory(p, nil)
 			AddSchedule(p, hist, plan.New(plan.Mix(cfg.Seed, uint64(idx)+0x5ced<<20)))
 			p.RefOut = make([][]string, len(p.Tasks))
@@ -1264,6 +1354,9 @@ func workerSchedGenExec(cfg WorkerCfg) int {
 	if cfg.K == 13 {
 		prop = "C13"
 	}
+	if cfg.K == 11 {
+		prop = "C11"
+	}
 	for idx := cfg.From; idx < cfg.To; idx += cfg.Stride {
 		if cfg.expired() {
 			break
@@ -1285,7 +1378,7 @@ func workerSchedGenExec(cfg WorkerCfg) int {
 			}
 			conc := runConc(p, ref)
 			fresh := runFresh(p)
-			findings = judgeConc(p, fresh, hist, conc)
+			findings = relabel(p, judgeConc(p, fresh, hist, conc))
 			sr = summarise(p, conc, true, findings)
 		}
 		if len(findings) > 0 || idx < cfg.From+2*cfg.Stride {
